@@ -24,9 +24,9 @@ META = {
         'RESTORE n to the first item whose line is >= n. Item readings (string text, numeric value) come from the generator\'s '
         'AST, not from parsing the printed text. Held = every observed program agreed.'),
     'level_note': (
-        'Trusted: harness, printer. RESTORE n is generated only for EXISTING line numbers n (with or without DATA on them): '
-        'the interpreter documents Undefined line number for a missing n, which the statement ("first DATA at or after line '
-        'n") does not exclude. Not pinned, hence not generated: a DATA statement with nothing after the keyword, quotes inside '
+        'Trusted: harness, printer. RESTORE n to a line that does not exist is taken as Undefined line number (GW-BASIC manual; the '
+        'statement does not exclude it) and must leave the pointer where it was - also generated under traps and in '
+        'direct-mode lines typed after the program has stopped. Not pinned, hence not generated: a DATA statement with nothing after the keyword, quotes inside '
         'unquoted items, text after a closing quote, DATA after THEN/ELSE, numeric items that are not exact in binary or too '
         'long for a short PRINT form, halves read into integer variables, the contents of the target variable after a failed READ '
         '(failed READs go to variables that are never printed). A READ that fails (non-numeric item, value beyond the integer '
@@ -42,7 +42,8 @@ META = {
         'gen_data_item_with_unclosed_quote', 'gen_line_ending_in_unclosed_string',
         'gen_failed_read_then_resumed', 'gen_integer_overflow_planned', 'ref_read:overflow', 'ref_resume:next',
         'gen_decoy_data_in_remark', 'gen_decoy_data_in_string', 'gen_line_zero', 'gen_indented_lines',
-        'gen_read_with_dependent_subscripts', 'gen_nop_before_data_scan']},
+        'gen_read_with_dependent_subscripts', 'gen_nop_before_data_scan',
+        'gen_restore_to_missing_line', 'gen_direct_restore_to_missing_line', 'gen_direct_reads_after_the_run', 'ref_restore:missing-line']},
     'timeout': {'quick': 600, 'thorough': 7200},
 }
 
@@ -138,13 +139,44 @@ DIRECTED = [
      ['10 DATA 1,3,9', '20 READ I%,J%(I%),K(J%(I%)):PRINT I%;J%(1);K(3);J%(0);K(0)'], b' 1  3  9  0  0 \r\n'),
     ('read-list:later-subscripts-use-values-read-earlier-in-the-list',
      ['10 DATA 1,5,2,6', '20 READ N%,C%(N%),N%,C%(N%):PRINT N%;C%(0);C%(1);C%(2)'], b' 2  0  5  6 \r\n'),
+    ('failed-restore:pointer-stays:trapped-then-read',
+     ['10 ON ERROR GOTO 100', '20 DATA 1,2,3', '30 READ A,B', '40 RESTORE 25', '50 READ C:PRINT A;B;C', '60 END', '100 PRINT ERR;ERL:RESUME NEXT'],
+     b' 8  40 \r\n 1  2  3 \r\n'),
+    ('failed-restore:pointer-stays:restore-beyond-last-data-is-legal',
+     ['10 DATA 1,2', '20 READ A', '30 PRINT "p"', '40 RESTORE 30:READ B'], b'p\r\nOut of DATA in 40' + E),
     ('read-in-subroutine-and-loop', ['10 FOR I%=1 TO 3:GOSUB 100:NEXT:END', '20 DATA 1,2', '100 READ A:PRINT A;:RETURN', '110 DATA 3'],
      b' 1  2  3 '),
 ]
 
 
+# (key, program, direct-mode lines typed after the run, expected total output)
+DIRECTED_AFTER = [
+    ('failed-restore:pointer-stays:direct-mode-after-the-program-stopped',
+     ['10 DATA a,b,c', '20 READ A$', '30 RESTORE 25', '40 PRINT "no"'], ['READ B$:PRINT "[";B$;"]"', 'RESTORE 35:READ C$', 'READ C$:PRINT "[";C$;"]"'],
+     b'Undefined line number in 30' + E + b'[b]\r\nUndefined line number' + E + b'[c]\r\n'),
+    ('direct-read-after-end:pointer-is-kept',
+     ['10 DATA 1,2,3', '20 READ A:END'], ['READ B:PRINT B', 'RESTORE 10:READ C:PRINT C', 'RESTORE 11', 'READ D:PRINT D'],
+     b' 2 \r\n 1 \r\nUndefined line number' + E + b' 2 \r\n'),
+]
+
+
 def _directed(res):
     from .. import harness
+    for key, lines, after, expected in DIRECTED_AFTER:
+        blines = [l.encode('ascii') for l in lines]
+        res.case(('directed', tuple(lines), tuple(after)))
+        res.count('directed_cases')
+        try:
+            with harness.Box(budget=2000) as box:
+                out = box.run(blines, budget=2000)
+                for t in after:
+                    out += box.ex(t.encode('ascii'), 2000)
+        except harness.Internal as e:
+            res.violation(e.key, str(e), {'lines': blines, 'after': after})
+            continue
+        if out != expected:
+            res.violation('directed:' + key, 'program %r then direct lines %r printed %r, reference semantics give %r' % (lines, after, out, expected),
+                          {'lines': blines, 'after': after, 'output': out, 'expected': expected})
     for key, lines, expected in DIRECTED:
         blines = [l.encode('ascii') for l in lines]
         res.case(('directed', tuple(lines)))
